@@ -2,21 +2,31 @@
 C12 -- AMEn solve returns a solution with relative residual at most eps.
 
 The residual clause is a convergence statement about a randomised alternating sweep with inexact local solves: no contract
-within reach decides it.  Bounded stand-in only (runtime/rt_c12.py: run-time contracts on the real amen_solve over SPD /
-diagonally dominant / Laplacian-like systems, every preconditioner, local solver and max_full setting) -- never counted as proved.
-The argument guards of amen_solve are proved in C18.
+within reach decides it.  Bounded stand-in (runtime/rt_c12.py: run-time contracts on the real amen_solve over SPD / diagonally
+dominant / Laplacian-like / convection-dominated systems, every preconditioner, local solver and max_full setting) -- never counted
+as proved.
+Deductive part (functions the sweep is built from, each against a spec function, all sizes / ranks / entries symbolic):
+  * local_operator.matvec: the operator handed to GMRES / BiCGSTAB is the projected operator B composed with the stored
+    preconditioner, matvec(x) = vec(B(P(x))), for prec in {None, 'c', 'r'} and apply_prec in {True, False}; operands not written;
+  * interfaces: the forward / backward interface recursions and the local product close to the dense forms <y, A x> and <b, x> at every
+    sweep position (orders 1..3), for the solver, the elementwise division (_division) and the AMEn product (_amen) helpers;
+  * the argument guards of amen_solve (must-raise obligations shared with C18).
 """
 import z3
 from ttvc import harness as H, tensors as T, interp as I
 from ttvc.oblig import scenario
 from .common import *
 from . import c18 as _c18
+from .c04 import sum_over
+from ttvc.tensors import STensor
+from ttvc.terms import fresh_int
 
-LEVEL = 'exploration'
+LEVEL = 'other'
 TRUSTED = TRUSTED_COMMON
 ASSUMPTIONS = ['bounded: orders 2..3 (quick) / 2..5 (thorough), sizes 2..6, operator ranks 1..3, rhs ranks 1..3, eps in {1e-4,1e-8}, preconditioner in {None,c,r}, max_full in {0,500}, local_solver in {1,2}, with / without x0, constant C = 100',
-               'deductive part: only the argument guards (must-raise obligations shared with C18)']
-EXPLANATION = 'bounded run-time contracts (icontract) on the real amen_solve; must-raise obligations for the guards'
+               'deductive part: the local operator (_LinearOp) for every preconditioner option, the interface recursions and local products of solvers / _division / _amen at orders 1..3, the argument guards; NOT the sweep itself (rank adaption, residual tests, local solves)',
+               'the opt_einsum fast path of _LinearOp for local problems with more than 1e4..1e5 unknowns is excluded by a size precondition; torch.linalg.inv enters as an opaque tensor']
+EXPLANATION = 'function-against-spec-function obligations (Sigma-term prover) for the building blocks of the AMEn sweep; bounded run-time contracts (icontract) on the real amen_solve for the residual clause; must-raise obligations for the guards'
 
 
 def bounded_checks(tier, seed, repo):
@@ -65,4 +75,167 @@ def amen_solve_structure(ob, d, prec, max_full, local_solver, guess):
     fl = fields(ob, r)
     ob.prove('kind', fl['is_ttm'] is False)
     all_eq(ob, 'N', fl['N'], N)
+    ob.frame()
+
+
+@scenario('C12', 'local_operator.matvec', ['torchtt.solvers._LinearOp.__init__', 'torchtt.solvers._LinearOp.matvec', 'torchtt.solvers._LinearOp.apply_prec'],
+          quick=[dict(prec=p, apply=a) for p in (None, 'c', 'r') for a in (True, False)], replay='local_op', max_paths=200)
+def local_operator(ob, prec, apply):
+    """function against a spec function: the operator the iterative local solvers apply is the projected operator
+         B(v)[l,m,L] = SUM_{s,r,n,S,R} Phi_left[l,s,r] A_k[s,m,n,S] Phi_right[L,S,R] v[r,n,R]
+    composed with the preconditioner P stored in the object (`J`, whatever its entries are):
+         matvec(x) = vec(B(P(x)))   (P = identity without preconditioner or with apply_prec=False)
+       P_c(x)[r,m,R] = SUM_n x[r,n,R] J[r,R,m,n]      P_r(x)[r,m,L] = SUM_{n,R} x[r,n,R] J[r,m,L,n,R]
+    and the operands are not written.  Sizes (ranks, mode size, operator rank) are symbolic, all entries are symbolic."""
+    ex = ob.ex
+    r, n, R = H.sym_sizes(ex, 'r', 1)[0], H.sym_sizes(ex, 'n', 1)[0], H.sym_sizes(ex, 'R', 1)[0]
+    s, S = H.sym_sizes(ex, 's', 1)[0], H.sym_sizes(ex, 'S', 1)[0]
+    ex.assume(r * n * R <= 1000)            # the opt_einsum fast path for very large local problems is not modelled
+    Pl = T.atom_tensor('Phil', [r, s, r])
+    Pr = T.atom_tensor('Phir', [R, S, R])
+    Ak = T.atom_tensor('Ak', [s, n, n, S])
+    x = T.atom_tensor('x', [r * n * R, 1])
+    x.axes[0] = T.Axis(T.sz(r * n * R), [T.Factor(r), T.Factor(n), T.Factor(R)])
+    for t, nm in ((Pl, 'Phi_left'), (Pr, 'Phi_right'), (Ak, 'coreA'), (x, 'x')):
+        ex.register_arg(t, nm)
+    ob.describe('sizes', {'r': r, 'n': n, 'R': R, 's': s, 'S': S})
+    ob.describe('prec', prec); ob.describe('apply_prec', apply)
+    ob.replay_args = {'prec': prec, 'apply': apply}
+    cls = ex.module('torchtt.solvers').env['_LinearOp']
+    op = ex.instantiate(cls, [Pl, Pr, Ak, [r, n, R], prec], {})
+    J = op.attrs.get('J')
+    if prec is not None:
+        if not isinstance(J, STensor):
+            ob.fail('preconditioner_stored', 'post', 'no tensor J in the operator object')
+            return
+        want_shape = [r, R, n, n] if prec == 'c' else [r, n, R, n, R]
+        all_eq(ob, 'J_shape', J.shape, want_shape)
+        if len(J.shape) != len(want_shape):
+            return
+        # the inverse is some tensor of that shape: give its entries names so that P(x) can be written down
+        Jat = T.atom_tensor('Jinv', want_shape)
+        J._val = lambda idx: Jat.at([(T.flatten_ix(i, a.factors) if len(a.factors) > 1 else i[0]) for i, a in zip(idx, J.axes)])
+    w = ex.call(ex.getattr(op, 'matvec'), [x] if apply else [x, False])
+    all_eq(ob, 'shape', w.shape, [r * n * R, 1])
+    if len(w.shape) == 2:
+        l_, m_, L_ = fresh_int('l'), fresh_int('m'), fresh_int('L')
+        for v, b in ((l_, r), (m_, n), (L_, R)):
+            ex.assume(z3.And(v >= 0, v < b))
+        fac = w.axes[0].factors
+        if len(fac) == 3:
+            got = w.at([(l_, m_, L_), (0,)])
+        else:
+            got = w.at([(l_ * n + m_) * R + L_, 0])
+
+        def px(ri, ni, Ri):
+            xv = lambda a, b_, c: x.at([(a, b_, c), (0,)])
+            if prec is None or not apply:
+                return xv(ri, ni, Ri)
+            if prec == 'c':
+                return sum_over(ex, [n], lambda js: xv(ri, js[0], Ri) * Jat.at([ri, Ri, ni, js[0]]))
+            return sum_over(ex, [n, R], lambda js: xv(ri, js[0], js[1]) * Jat.at([ri, ni, Ri, js[0], js[1]]))
+        want = sum_over(ex, [s, r, n, S, R], lambda js: Pl.at([l_, js[0], js[1]]) * Ak.at([js[0], m_, js[2], js[3]]) * Pr.at([L_, js[3], js[4]]) * px(js[1], js[2], js[4]))
+        ob.prove_eq('value_is_projected_operator_after_preconditioner', got, want)
+    ob.frame()
+
+
+# ------------------------------------------------------------------------------------------------
+# the projection interfaces ("phi" recursions) and local products of the AMEn routines against the dense forms they represent
+# ------------------------------------------------------------------------------------------------
+def _one(nd):
+    return T.const_tensor([1] * nd, 1, 'float64')
+
+
+def _mode_index(ex, sizes, p):
+    return H.fresh_index(ex, sizes, p)
+
+
+@scenario('C12', 'interfaces', ['torchtt.solvers._compute_phi_fwd_A', 'torchtt.solvers._compute_phi_bck_A', 'torchtt.solvers._compute_phi_fwd_rhs',
+                                'torchtt.solvers._compute_phi_bck_rhs', 'torchtt.solvers._local_product',
+                                'torchtt._division.compute_phi_fwd_A', 'torchtt._division.compute_phi_bck_A', 'torchtt._division.compute_phi_fwd_rhs',
+                                'torchtt._division.compute_phi_bck_rhs', 'torchtt._division.local_product',
+                                'torchtt._amen._compute_phi_fwd_AB', 'torchtt._amen._compute_phi_bck_AB', 'torchtt._amen._compute_phi_fwd_x',
+                                'torchtt._amen._compute_phi_bck_x', 'torchtt._amen._local_AB'],
+          quick=[dict(which=w, d=d, k=k) for w in ('solve', 'divide', 'mm') for d in (1, 2, 3) for k in range(d)], replay=None, max_paths=50)
+def interfaces(ob, which, d, k):
+    """the interface tensors the AMEn routines carry from core to core are projections of the dense form:
+       sweeping the forward recursion over cores 0..k-1 and the backward recursion over cores d-1..k+1 and closing with the local
+       product at core k gives exactly   <y, A x>  (solve: y^T A x ; divide: SUM y a x elementwise ; mm: <X, A B>)  and, for the
+       right-hand-side interfaces,  <b, x>  -- for every position k of the sweep, all sizes, ranks and entries"""
+    ex = ob.ex
+    N = H.sym_sizes(ex, 'n', d)
+    y = ob.tt('y', d, N=N, dtype='float64')
+    if which == 'solve':
+        mod = ex.module('torchtt.solvers').env
+        A = ob.tt('A', d, ttm=True, N=N, M=N, dtype='float64')
+        x = ob.tt('x', d, N=N, dtype='float64')
+        fwd, bck, loc = mod['_compute_phi_fwd_A'], mod['_compute_phi_bck_A'], mod['_local_product']
+        fwd_b, bck_b = mod['_compute_phi_fwd_rhs'], mod['_compute_phi_bck_rhs']
+    elif which == 'divide':
+        mod = ex.module('torchtt._division').env
+        A = ob.tt('A', d, N=N, dtype='float64')          # the divisor acts as a diagonal operator
+        x = ob.tt('x', d, N=N, dtype='float64')
+        fwd, bck, loc = mod['compute_phi_fwd_A'], mod['compute_phi_bck_A'], mod['local_product']
+        fwd_b, bck_b = mod['compute_phi_fwd_rhs'], mod['compute_phi_bck_rhs']
+    else:
+        mod = ex.module('torchtt._amen').env
+        K = H.sym_sizes(ex, 'kk', d)
+        M = H.sym_sizes(ex, 'mm', d)
+        y = ob.tt('X', d, ttm=True, M=M, N=N, dtype='float64')
+        A = ob.tt('A', d, ttm=True, M=M, N=K, dtype='float64')
+        x = ob.tt('B', d, ttm=True, M=K, N=N, dtype='float64')
+        fwd, bck, loc = mod['_compute_phi_fwd_AB'], mod['_compute_phi_bck_AB'], mod['_local_AB']
+        fwd_b, bck_b = mod['_compute_phi_fwd_x'], mod['_compute_phi_bck_x']
+    yc, Ac, xc = y.attrs['cores'], A.attrs['cores'], x.attrs['cores']
+    # ---- operator interfaces
+    left = _one(3)
+    for j in range(k):
+        left = ex.call(fwd, [left, yc[j], Ac[j], xc[j]] if which != 'mm' else [left, Ac[j], xc[j], yc[j]])
+    right = _one(3)
+    for j in range(d - 1, k, -1):
+        right = ex.call(bck, [right, yc[j], Ac[j], xc[j]] if which != 'mm' else [right, Ac[j], xc[j], yc[j]])
+    if which == 'mm':
+        w = ex.call(loc, [left, right, Ac[k], xc[k]])                 # r m n R
+        got = T.contract([w, yc[k]], [['r', 'm', 'n', 'R'], ['r', 'm', 'n', 'R']], [])
+    else:
+        w = ex.call(loc, [right, left, Ac[k], xc[k], xc[k].shape])    # l m L
+        got = T.contract([w, yc[k]], [['l', 'm', 'L'], ['l', 'm', 'L']], [])
+    if which == 'solve':
+        im, in_ = _mode_index(ex, N, 'im'), _mode_index(ex, N, 'in')
+        want = val(ob, y, im) * val(ob, A, list(zip(im, in_))) * val(ob, x, in_)
+        for v, s in zip(im + in_, N + N):
+            want = want.summed(v, s)
+    elif which == 'divide':
+        im = _mode_index(ex, N, 'im')
+        want = val(ob, y, im) * val(ob, A, im) * val(ob, x, im)
+        for v, s in zip(im, N):
+            want = want.summed(v, s)
+    else:
+        im, ik, in_ = _mode_index(ex, M, 'im'), _mode_index(ex, K, 'ik'), _mode_index(ex, N, 'in')
+        want = val(ob, y, list(zip(im, in_))) * val(ob, A, list(zip(im, ik))) * val(ob, x, list(zip(ik, in_)))
+        for v, s in zip(im + ik + in_, M + K + N):
+            want = want.summed(v, s)
+    ob.prove_eq('operator_interfaces_close_to_the_dense_form', got.at([]), want)
+    # ---- right-hand-side interfaces: <b, x> resp. <X, Y>
+    if k == 0:
+        b = ob.tt('b', d, N=N, dtype='float64') if which != 'mm' else ob.tt('Y', d, ttm=True, M=M, N=N, dtype='float64')
+        bc = b.attrs['cores']
+        lf = _one(2)
+        for j in range(d):
+            lf = ex.call(fwd_b, [lf, bc[j], yc[j]])
+        rt = _one(2)
+        for j in range(d - 1, -1, -1):
+            rt = ex.call(bck_b, [rt, bc[j], yc[j]])
+        if which == 'mm':
+            im, in_ = _mode_index(ex, M, 'jm'), _mode_index(ex, N, 'jn')
+            wb = val(ob, b, list(zip(im, in_))) * val(ob, y, list(zip(im, in_)))
+            for v, s in zip(im + in_, M + N):
+                wb = wb.summed(v, s)
+        else:
+            im = _mode_index(ex, N, 'jm')
+            wb = val(ob, b, im) * val(ob, y, im)
+            for v, s in zip(im, N):
+                wb = wb.summed(v, s)
+        ob.prove_eq('rhs_forward_interface_is_the_dot_product', lf.at([0, 0]), wb)
+        ob.prove_eq('rhs_backward_interface_is_the_dot_product', rt.at([0, 0]), wb)
     ob.frame()
